@@ -1196,6 +1196,62 @@ def apply_ext(t, sh, op):
 NO_DIGEST = "no-digest-defined"
 
 
+def _canon_script_bytes(raw):
+    """raw is a complete sequence of op codes and pushes, every push in the shortest of the forms the library's
+    serialiser emits (direct <= 75, PUSHDATA1 <= 255, PUSHDATA2 <= 520): exactly the byte strings that
+    Script.parse followed by raw_serialize reproduces.  Everything else is the domain of the known finding
+    C05-script-code-reserialized (the library hashes the RE-serialisation of the script code)."""
+    i, n = 0, len(raw)
+    while i < n:
+        b = raw[i]
+        i += 1
+        if 1 <= b <= 75:
+            ln = b
+        elif b == 76:
+            if i + 1 > n:
+                return False
+            ln = raw[i]
+            i += 1
+            if ln <= 75:
+                return False
+        elif b == 77:
+            if i + 2 > n:
+                return False
+            ln = int.from_bytes(raw[i:i + 2], "little")
+            i += 2
+            if ln <= 255 or ln > 520:
+                return False
+        elif b == 78:
+            return False
+        else:
+            continue
+        if i + ln > n:
+            return False
+        i += ln
+    return True
+
+
+def _dispatch_script_code(tx, spent, idx):
+    """the raw bytes Tx.sig_hash takes as script code / tap script from the witness or the scriptSig of input idx
+    (None when the script code comes from the spent output itself)"""
+    kind = ref_classify(ref_raw_script(spent[idx][1]))[0]
+    witness = list(tx[1][idx][4])
+    cmds = tx[1][idx][2][0]
+    if kind == "p2wsh":
+        return witness[-1] if witness else None
+    if kind == "p2tr":
+        _annex, stack = ref_split_annex(witness)
+        return stack[-2] if len(stack) >= 2 else None
+    if kind == "p2sh" and cmds and isinstance(cmds[-1], bytes):
+        k2 = ref_classify(cmds[-1])[0]
+        if k2 == "p2wsh":
+            return witness[-1] if witness else None
+        if k2 == "p2wpkh":
+            return None
+        return cmds[-1]
+    return None
+
+
 def ref_query(sh, alg, idx, ht):
     """What the standards say for this query on the shadow value: [alg, [preimage], digest]; None = no claim;
     NO_DIGEST = Tx.sig_hash has nothing to hash here (a p2wsh / p2tr spend without witness, a p2sh spend without
@@ -1205,6 +1261,10 @@ def ref_query(sh, alg, idx, ht):
         return None
     k = alg[0]
     if k == 3:
+        if idx < len(spent):
+            code = _dispatch_script_code(tx, spent, idx)
+            if code is not None and not _canon_script_bytes(code):
+                return None          # no claim: known finding C05-script-code-reserialized (replayed by script_code_raw)
         r = ref_sig_hash(tx, spent, idx, ht)
         if r is None and not tx[1][idx][4] and ref_classify(ref_raw_script(spent[idx][1]))[0] == "p2tr":
             # an UNSIGNED taproot input: the digest a key-path signer needs (BIP341 message, no annex, no extension)
